@@ -1698,6 +1698,12 @@ func (w *World) liftCalls(target *ssa.Function, stop func(*ssa.Function) bool, d
 					if j := paramIndex(p); j >= 0 && j < len(cs2.Common().Args) {
 						args2[i] = cs2.Common().Args[j]
 					}
+				} else if call2, isCall := cs2.(*ssa.Call); isCall {
+					// a value computed in the helper from its parameters (append(attrs, mi)):
+					// the same expression over the arguments of this call
+					if _, isConst := a.(*ssa.Const); !isConst {
+						args2[i] = w.translate(a, fn, call2)
+					}
 				}
 			}
 			lift(cs2, args2, d-1)
